@@ -1,3 +1,5 @@
+//go:build verif_c15
+
 package main
 
 // C15 — documented concurrency-safe functions are race-free and linearizable.
